@@ -56,6 +56,23 @@ def check(run, driver):
             scal[l] = float(np.asarray(poisson_entropy(l)).reshape(-1)[0])
         return scal[l]
 
+    for lam in (0, 1, 3, 10, 250, 500):       # integer-typed rates (Python int, NumPy integer scalars and arrays) denote the same rates
+        for arg in (lam, np.int64(lam), np.array(lam), np.array([lam], dtype=np.int32)):
+            got = float(np.asarray(poisson_entropy(arg), dtype=float).reshape(-1)[0])
+            run.case("integer-dtype", [lam, type(arg).__name__, str(getattr(arg, "dtype", ""))], lam > 0)
+            want = float(np.asarray(poisson_entropy(float(lam))).reshape(-1)[0])
+            if abs(got - want) > 1e-9:
+                run.prop_fail("entropy of an integer-typed rate differs from the entropy of the same rate given as a float", {"rate": lam, "given_as": repr(arg)}, {"clause": "accuracy", "dtype": "integer"}, {"impl": got, "float_rate": want})
+    vi = np.array([0, 10, 500, 3], dtype=np.int64)
+    got = np.asarray(poisson_entropy(vi), dtype=float).reshape(-1)
+    run.case("integer-dtype", ["vector", vi.tolist()], True)
+    if got.size != 4 or any(abs(float(g) - float(np.asarray(poisson_entropy(float(l))).reshape(-1)[0])) > 1e-9 for g, l in zip(got, vi)):
+        run.prop_fail("entropies of an integer-typed vector of rates differ from the scalar values", {"rates": vi}, {"clause": "elementwise", "dtype": "integer"}, {"impl": got})
+    Ci = np.array([[3, 1, 2], [0, 10, 1], [4, 0, 0]], dtype=np.int64)
+    gj = float(poisson_joint_entropy(Ci)); wj = float(poisson_joint_entropy(Ci.astype(float)))
+    run.case("integer-dtype", ["joint", Ci.tolist()], True)
+    if abs(gj - wj) > 1e-9:
+        run.prop_fail("joint entropy of an integer-typed matrix differs from that of the same numbers as floats", {"C": Ci}, {"clause": "joint", "dtype": "integer"}, {"impl": gj, "float": wj})
     vecs = [np.array([5, 0.5, 100.0]), np.array([1e-30, 5.0]), np.array([0.0, 5.0]), np.array([0.0, 0.0]), np.array([500.0, 1e-12, 0.0, 3.0]),
             np.array([[1.0, 200.0], [0.0, 1e-8]]), np.array([[7.0]]), np.array([2.0]), np.array([[1.0, 50.0, 400.0]]), np.array([[1.0], [50.0], [400.0]])]
     for _ in range(60 if thorough else 20):
